@@ -187,7 +187,6 @@ func execGcs(f []string) string {
 			return gcsErr(err)
 		}
 		nb, _ := flt.NBytes()
-		pb, _ := flt.PBytes()
 		np, _ := flt.NPBytes()
 		if len(np) > 10 {
 			np = np[:10]
@@ -201,8 +200,56 @@ func execGcs(f []string) string {
 			rt = g.N() == flt.N() && g.P() == flt.P() && string(gb) == string(nb) && string(gp) == string(fp) &&
 				observe(g, key, qs, true) == observe(flt, key, qs, true)
 		}
-		return fmt.Sprintf("n=%d nbytes=%s pb=%s np=%s rt=%s %s", flt.N(), hex.EncodeToString(nb),
-			hexTok(pb[:1]), hex.EncodeToString(np), bit(rt), observe(flt, key, qs, true))
+		obs := observe(flt, key, qs, true)
+		// secondary serialisations agree with the primary one
+		raw, _ := flt.Bytes()
+		pbFull, _ := flt.PBytes()
+		npFull, _ := flt.NPBytes()
+		vl := wire.VarIntSerializeSize(uint64(flt.N()))
+		ser := len(nb) >= vl && string(nb[vl:]) == string(raw) &&
+			len(pbFull) == 1+len(raw) && pbFull[0] == flt.P() && string(pbFull[1:]) == string(raw) &&
+			string(npFull) == string(nb[:vl])+string([]byte{flt.P()})+string(raw) &&
+			int(flt.N()) == len(items) && int(flt.P()) == p
+		// results are values: scribbling over every returned slice, over the inputs and over the key,
+		// and building another filter in between, must not change the first filter
+		val := true
+		for _, b := range [][]byte{raw, pbFull, npFull} {
+			for i := range b {
+				b[i] ^= 0xa5
+			}
+		}
+		nbKeep := append([]byte{}, nb...)
+		for i := range nb {
+			nb[i] ^= 0x5a
+		}
+		qsCopy := make([][]byte, len(qs))
+		for i, q := range qs {
+			qsCopy[i] = append([]byte{}, q...)
+		}
+		for _, it := range items {
+			for i := range it {
+				it[i] ^= 0xff
+			}
+		}
+		if other, err := gcs.BuildGCSFilter(uint8(p), m, key, items); err == nil {
+			_, _ = other.HashMatchAny(key, items)
+		}
+		nb2, _ := flt.NBytes()
+		val = string(nb2) == string(nbKeep) && observe(flt, key, qsCopy, true) == obs
+		// FromBytes copies its argument
+		d := append([]byte{}, nbKeep[vl:]...)
+		if g, err := gcs.FromBytes(flt.N(), uint8(p), m, d); err == nil {
+			for i := range d {
+				d[i] = 0xff
+			}
+			gb, _ := g.NBytes()
+			val = val && string(gb) == string(nbKeep)
+		} else {
+			val = false
+		}
+		nb = nbKeep
+		return fmt.Sprintf("n=%d nbytes=%s pb=%s np=%s rt=%s ser=%s val=%s %s", flt.N(), hex.EncodeToString(nb),
+			hexTok([]byte{flt.P()}), hex.EncodeToString(np), bit(rt), bit(ser), bit(val), obs)
 	case "from":
 		p, _ := strconv.Atoi(f[1])
 		m := u64(f[2])
@@ -231,7 +278,11 @@ func execGcs(f []string) string {
 		}
 		blk := wire.MsgBlock{Header: h}
 		var wantAll [][]byte
-		for _, t := range strings.Split(f[2], ";") {
+		txToks := strings.Split(f[2], ";")
+		if f[2] == "!" { // a block without transactions
+			txToks = nil
+		}
+		for _, t := range txToks {
 			tx := wire.NewMsgTx(2)
 			for _, s := range parseItems(t) {
 				tx.AddTxOut(wire.NewTxOut(1, s))
@@ -492,6 +543,53 @@ func genGcsMore(g *core.Gen) {
 		}
 		g.Case("gcs-large", true, fmt.Sprintf("C20 gcs %d %d %s *%dx%d+%d %s", p, m, keyTok(r), n, mult, add, itemsTok(qs)))
 	}
+	// --- N at the CompactSize boundaries of the N prefix
+	nb := []int{252, 253, 254}
+	if g.Thorough() || r.Chance(1, 2) {
+		nb = append(nb, 65535)
+	} else {
+		nb = append(nb, 65536)
+	}
+	if g.Thorough() {
+		nb = append(nb, 65536, 65537)
+	}
+	for _, n := range nb {
+		mult, add := r.U64()|1, r.U64()
+		var b [8]byte
+		binary.LittleEndian.PutUint64(b[:], uint64(r.Intn(n))*mult+add)
+		g.Case("gcs-nprefix", true, fmt.Sprintf("C20 gcs 19 784931 %s *%dx%d+%d %s,%s", keyTok(r), n, mult, add,
+			hex.EncodeToString(b[:]), hexTok(r.Bytes(3))))
+	}
+	// --- MatchAny strategy threshold: len(queries) = N/2 - 1, N/2, N/2 + 1
+	for i := 0; i < g.N(40, 1500); i++ {
+		n := 2 + r.Intn(30)
+		items := randItems(r, n, 10)
+		for _, nq := range []int{n/2 - 1, n / 2, n/2 + 1} {
+			if nq < 0 {
+				continue
+			}
+			qs := make([][]byte, nq)
+			for j := range qs {
+				if r.Chance(1, 4) {
+					qs[j] = items[r.Intn(n)]
+				} else {
+					qs[j] = r.Bytes(1 + r.Intn(6))
+				}
+			}
+			g.Case("gcs-anythreshold", nq > 0, fmt.Sprintf("C20 gcs 19 784931 %s %s %s", keyTok(r), itemsTok(items), itemsTok(qs)))
+		}
+	}
+	// --- Golomb-Rice reads with quotients 62..66 and remainder widths around the byte/word paths of ReadBits
+	for _, p := range []int{0, 1, 7, 8, 9, 15, 16, 17, 23, 24, 25, 31, 32} {
+		for q := uint64(62); q <= 66; q++ {
+			deltas := []uint64{q<<uint(p) | (r.U64() & (uint64(1)<<uint(p) - 1)), uint64(r.Intn(3)) << uint(p), q << uint(p)}
+			d := golomb(p, deltas)
+			if r.Chance(1, 3) && len(d) > 1 {
+				d = d[:len(d)-1]
+			}
+			g.Case("rd-q64", true, fmt.Sprintf("C20 rd %d %s %d", p, hexTok(d), 2+r.Intn(3)))
+		}
+	}
 	// --- N*M around 2^32 (small quotients need P near 32)
 	for i := 0; i < g.N(60, 3000); i++ {
 		n := 1 + r.Intn(60)
@@ -634,6 +732,9 @@ func genGcsMore(g *core.Gen) {
 			pool = append(pool, s)
 			return s
 		}
+		if r.Chance(1, 25) {
+			ntx = 0
+		}
 		txs := make([]string, ntx)
 		for t := range txs {
 			no := r.Intn(4)
@@ -655,7 +756,11 @@ func genGcsMore(g *core.Gen) {
 		if r.Chance(1, 5) {
 			prevHdr = make([]byte, 32)
 		}
-		g.Case("basic", true, fmt.Sprintf("C20 basic %s %s %s %s", hex.EncodeToString(hdr), strings.Join(txs, ";"),
+		txsTok := strings.Join(txs, ";")
+		if ntx == 0 {
+			txsTok = "!"
+		}
+		g.Case("basic", true, fmt.Sprintf("C20 basic %s %s %s %s", hex.EncodeToString(hdr), txsTok,
 			itemsTok(prevs), hex.EncodeToString(prevHdr)))
 	}
 }
